@@ -161,7 +161,7 @@ def gen_purity_world(rw, rv, knobs):
         m2 = R.add("m", {"kind": "mask2d", "shape": [h2, w2], "bits": m2_bits, "pixel_scales": scales(rw), "origin": [0.0, 0.0]})
         n2 = n_unmasked(m2_bits)
         for _ in range(rw.randrange(2, 6)):
-            k = rw.choice(["array2d", "grid2d", "grid2d_values", "vector", "kernel", "vis", "array1d", "irregular", "array2d"])
+            k = rw.choice(["array2d", "grid2d", "grid2d_values", "vector", "kernel", "vis", "array1d", "irregular", "array2d", "operators"])
             mid, bits_, hh, ww, nn = rw.choice([(m0, m0_bits, h, w, n0), (m2, m2_bits, h2, w2, n2)])
             if k == "array2d":
                 if rw.random() < 0.5:
@@ -192,6 +192,11 @@ def gen_purity_world(rw, rv, knobs):
                 R.add("a1d", {"kind": "array1d", "mask": ref(m1), "values": hx(rv, n_unmasked(b), "data")})
                 if rw.random() < 0.5:
                     R.add("g1d", {"kind": "grid1d", "mask": ref(m1)})
+            elif k == "operators":
+                sub = rw.choice([1, 2, [rw.choice([1, 2]) for _ in range(nn)]])
+                R.add("os", {"kind": "over_sampler", "mask": ref(mid), "sub_size": sub})
+                if rw.random() < 0.6:
+                    R.add("br", {"kind": "border_relocator", "mask": ref(mid), "sub_size": sub})
             elif k == "irregular":
                 n = rw.randrange(2, 7)
                 R.add("gi", {"kind": "grid2d_irregular", "values": hx(rv, 2 * n)})
@@ -211,6 +216,8 @@ def gen_purity_world(rw, rv, knobs):
         over = rw.choice([None, None, {"uniform": {"uniform": 2}, "pixelization": {"uniform": 1}}, {"pixelization": {"uniform": 2}}])
         ds0 = R.add("ds", {"kind": "imaging", "data": ref(d0), "noise": ref(nz), "psf": ref(psf), "over": over})
         ds_masked = R.add("ds", {"kind": "derive", "src": ref(ds0), "q": {"t": "call", "name": "apply_mask", "kw": {"mask": ref(m0)}}})
+        if rw.random() < 0.3:
+            R.add("cv", {"kind": "convolver", "mask": ref(m0), "kernel": ref(psf)})
 
     if "inversion" in want and ds_masked is not None:
         adapt = None
@@ -235,6 +242,11 @@ def gen_purity_world(rw, rv, knobs):
         inv = R.add("inv", {"kind": "inversion", "dataset": ref(ds_masked), "objs": [ref(o) for o in objs], "settings": ref(settings) if settings else None, "profile": profile})
         if rw.random() < 0.6:
             R.add("fit", {"kind": "fit_imaging", "dataset": ref(ds_masked), "inversion": ref(inv), "use_mask_in_fit": rw.random() < 0.3})
+            if rw.random() < 0.5:
+                # a second, identical inversion + fit and an empty Preloads: the Preloads.set_*(fit_0, fit_1) helpers as query calls
+                inv_b = R.add("inv", {"kind": "inversion", "dataset": ref(ds_masked), "objs": [ref(o) for o in objs], "settings": ref(settings) if settings else None})
+                R.add("fit", {"kind": "fit_imaging", "dataset": ref(ds_masked), "inversion": ref(inv_b)})
+                R.add("pl", {"kind": "preloads", "kw": {}})
         mappers = [o for o in objs if o.startswith("mp")]
         if mappers and rw.random() < 0.7:
             mp = rw.choice(mappers)
@@ -257,6 +269,23 @@ def gen_purity_world(rw, rv, knobs):
         img = R.add("a", {"kind": "array2d", "mask": ref(mf), "input": "native", "values": hx(rv, h * w, "positive")})
         R.add("sim", {"kind": "simulator", "exposure_time": rw.choice([300.0, 1000.0]), "background_sky_level": rw.choice([0.0, 0.1, 1.0]), "psf": ref(kpsf) if rw.random() < 0.7 else None,
                       "noise_seed": rw.randrange(0, 1000), "add_poisson_noise_to_data": rw.random() < 0.8, "normalize_psf": rw.random() < 0.7})
+
+    if "triangles" in want:
+        seen = set()
+        coords = []
+        for _ in range(rw.randrange(1, 7)):
+            c = (rw.randrange(-3, 4), rw.randrange(-3, 4))
+            if c not in seen:
+                seen.add(c)
+                coords += list(c)
+        R.add("ct", {"kind": "coord_triangles", "coordinates": coords, "side_length": rw.choice([0.5, 1.0, 2.0]), "x_offset": rw.choice([0.0, 0.3]),
+                     "y_offset": rw.choice([0.0, -0.2]), "flipped": rw.random() < 0.5})
+        nv = rw.randrange(4, 8)
+        verts = hx(rv, 2 * nv, "unit")
+        tris = []
+        for _ in range(rw.randrange(1, 5)):
+            tris += rw.sample(range(nv), 3)
+        R.add("at", {"kind": "array_triangles", "indices": tris, "vertices": verts})
 
     if "vis_interface" in want:
         n = rw.randrange(3, 7)
@@ -336,7 +365,7 @@ def gen_preloads_world(rw, rv, knobs):
         if rw.random() < 0.7:
             s = gen_mapper_spec(rw, rv, m0, (h, w), ps, adapt, knobs.get("profile_on", False))
             s["sub_size"] = sub
-            s["border"] = False
+            s["border"] = rw.random() < 0.25
             if s["reg"] is None and rw.random() < 0.7:
                 s["reg"] = gen_reg(rw, s["mesh"]["kind"], adapt is not None, allow_none=False)
             obj_specs.append(("mp", s))
@@ -374,6 +403,14 @@ def gen_preloads_world(rw, rv, knobs):
     if pl_use is not None:
         kw["use_w_tilde"] = pl_use
     P = R.add("pl", {"kind": "preloads", "kw": kw})
-    meta = {"D": D, "D2": D2, "L": L, "L2": L2, "st_w": st_w, "st_m": st_m, "src": src, "P": P, "slots": slots, "preloads_use_w_tilde": pl_use,
+    # the same dataset presented through the DatasetInterface the factory also accepts (used by some clients)
+    DI = None
+    if rw.random() < 0.3:
+        parts = {}
+        for name in ("data", "noise_map", "grids", "convolver", "w_tilde"):
+            parts[name] = R.add("dp", {"kind": "derive", "src": ref(D), "q": {"t": "prop", "name": name}})
+        DI = R.add("di", {"kind": "dataset_interface", "data": ref(parts["data"]), "noise": ref(parts["noise_map"]), "grids": ref(parts["grids"]),
+                          "convolver": ref(parts["convolver"]), "w_tilde": ref(parts["w_tilde"])})
+    meta = {"D": D, "D2": D2, "DI": DI, "L": L, "L2": L2, "st_w": st_w, "st_m": st_m, "src": src, "P": P, "slots": slots, "preloads_use_w_tilde": pl_use,
             "has_mapper": has_mapper, "kernel": [ky, kx], "signed_psf": signed, "n_obj": n_obj}
     return R.nodes, meta
